@@ -1,5 +1,6 @@
 import NixModel.Pure.Upgrade
 import NixModel.Lemmas.C18Resume
+import NixModel.Lemmas.C18Content
 
 /-!
 # C18 — format upgrade preserves content, is idempotent and resumable
@@ -111,6 +112,78 @@ theorem C18_writable (lib : List Nat) (r : Nat) (f : File) (hlib : lib.length = 
   unfold openRW
   simp [hver, hlib, hv]
 
+/-! ## content -/
+
+/-- "the upgrade succeeds and the file reads as before": every compound property is now a plain one
+with the same dtype, values, unit and definition, its per-value uncertainties and texts are
+retrievable (the `uncertainty` attribute or the `<name>.<extra>` property); every plain property is
+untouched; every array reads the same data, unit, label and dimensions (alias range dimensions keep
+ticks, unit and label); nothing else changed. -/
+def ContentPreserved (lib : List Nat) (r : Nat) (f : File) : Prop :=
+  (upgrade lib r f).2 = none ∧
+  (∀ p o, (p, PObj.old o) ∈ f.props →
+    ∃ n, lookup (upgrade lib r f).1.props p = some (.new n) ∧
+      (PObj.new n).view = (PObj.old o).view ∧
+      extraUnc (upgrade lib r f).1.props p = some (o.rows.map (·.uncertainty)) ∧
+      extraStr (upgrade lib r f).1.props p ".reference" = some (o.rows.map (·.reference)) ∧
+      extraStr (upgrade lib r f).1.props p ".filename" = some (o.rows.map (·.filename)) ∧
+      extraStr (upgrade lib r f).1.props p ".encoder" = some (o.rows.map (·.encoder)) ∧
+      extraStr (upgrade lib r f).1.props p ".checksum" = some (o.rows.map (·.checksum))) ∧
+  (∀ p n, (p, PObj.new n) ∈ f.props → lookup (upgrade lib r f).1.props p = some (.new n)) ∧
+  (upgrade lib r f).1.arrays.map arrView = f.arrays.map arrView ∧
+  (upgrade lib r f).1.other = f.other
+
+/-- the full statement: every old file keeps its content -/
+def C18_content : Prop :=
+  ∀ (lib : List Nat) (r : Nat) (f : File), WF f → upToDate lib f = false → ContentPreserved lib r f
+
+/-- Content is preserved for every old file in which no `<name>.<extra>` name is already taken
+(`Clean`, decidable): by the invariant `ContentInv` carried along the whole run. -/
+theorem C18_content_partial (lib : List Nat) (r : Nat) (f : File) (hwf : WF f) (hclean : Clean f)
+    (hold : upToDate lib f = false) : ContentPreserved lib r f := by
+  obtain ⟨hok, hP, hwfG⟩ := run_induction (lib := lib) (r := r) (ContentInv r f) (content_step hclean)
+    _ f rfl hwf ⟨Inv.refl r f.props, rfl, rfl⟩
+  have hno := upgrade_no_old hwf hold hok
+  refine ⟨hok, ?_, ?_, hP.2.1, hP.2.2⟩
+  · intro p o hp
+    rcases hP.1.oldOrDone p o hp with h | hd
+    · have := mem_oldPaths_of_mem h
+      rw [hno] at this
+      cases this
+    · obtain ⟨h1, h2, h3, h4, h5, h6⟩ := decode_all hwfG.1 hd (clean_extras_nodup hclean hp)
+      exact ⟨mainOf r o, h1, view_mainOf r o, h2, h3, h4, h5, h6⟩
+  · intro p n hp
+    exact lookup_of_mem hwfG.1 (hP.1.keepNew p n hp)
+
+/-- a property `a` with a reference text next to a property named `a.reference` -/
+def clash : File :=
+  { version := [1, 1, 0], id := .absent,
+    props := [(["s", "properties", "a"], .old ⟨"int64", [⟨.int 1, 0, "ref", "", "", ""⟩], none, none⟩),
+              (["s", "properties", "a.reference"], .old ⟨"int64", [⟨.int 5, 0, "", "", "", ""⟩], none, none⟩)],
+    arrays := [], other := "" }
+
+theorem clash_collect : collect [1, 2, 1] clash =
+    [.addId, .prop ["s", "properties", "a"], .prop ["s", "properties", "a.reference"], .bump] := by
+  have h1 : propTasks clash = [["s", "properties", "a"], ["s", "properties", "a.reference"]] :=
+    mergeSort_eq_of (by decide +kernel) (by decide +kernel)
+  rw [collect_old (by decide +kernel)]
+  unfold preSteps
+  rw [h1]
+  decide +kernel
+
+/-- The full statement is false of the code: `create_property` for `a.reference` raises because the
+name exists; `a` has already been replaced, its reference text is lost, and the upgrade reports
+failure (open known finding `C18-extra-name-collision`). -/
+theorem C18_content_counterexample : ¬ C18_content := by
+  intro h
+  have := (h [1, 2, 1] 1 clash (by decide) (by decide +kernel)).1
+  unfold upgrade at this
+  rw [clash_collect] at this
+  revert this
+  decide +kernel
+
+example : ¬ Clean clash := by decide +kernel
+
 /-! ## non-vacuity: a concrete old file with an interrupted run -/
 
 def sample : File :=
@@ -122,6 +195,7 @@ def sample : File :=
     other := "" }
 
 example : WF sample := by decide
+example : Clean sample := by decide +kernel
 
 theorem sample_collect : collect [1, 2, 1] sample =
     [.addId, .prop ["s", "properties", "a"], .prop ["s", "properties", "b"],
